@@ -61,7 +61,7 @@ def run_shift(ctx, binp, items, label):
             st['with_layers'] += 1
         ctx.note_case("%s/%s/%d/%d" % (d[:200], v, dx, dy), nontrivial=r['nonblank'] > 0)
         st['worst'] = max(st['worst'], r['max'])
-        if r['layersA'] != r['layersB'] and not r.get('frame_bad') and not v.startswith('native'):
+        if r['layersA'] != r['layersB'] and not v.startswith('native'):
             ctx.violation("%s: the shifted rendering allocates %d layers, the unshifted one %d" % (label, r['layersB'], r['layersA']),
                           dict(op='c13-shift', doc=d, view=v, shift=[dx, dy], result=r))
             continue
@@ -78,10 +78,6 @@ def run_shift(ctx, binp, items, label):
         text = "%s: render(translate(%d,%d)*M) is not the shifted render(M): %s [view %s]" % (label, dx, dy, why, v)
         replay = dict(op='c13-shift', doc=d, view=v, shift=[dx, dy], result=r,
                       replay="rvh c13-shift, payload '-\\t<doc>\\t<view>\\t<dx>\\t<dy>\\temit'")
-        if r.get('frame_bad', 0) > 0:
-            st['nested_clamp'] = st.get('nested_clamp', 0) + 1
-            ctx.known_or_violation('nested-layer-clamp', text, replay)
-            continue
         if r.get('neg_origin'):
             st['neg_origin'] = st.get('neg_origin', 0) + 1
             ctx.known_or_violation('layer-origin-negative', text, replay)
@@ -108,7 +104,6 @@ def run(ctx):
     ]
     ctx.assumptions = [
         "device boxes within +-2^29 (no i32 saturation)",
-        "nested layers: accumulated layer origin within +-2 canvases (outside: C13_nested_frame_refuted, class nested-layer-clamp)",
         "C13_filter_region_equivariant: single filter, layer not clamped",
     ]
     broken = ctx.translate()
@@ -148,6 +143,16 @@ def run(ctx):
     if tr['distinct'] < 150:
         ctx.violation("layer-trace correspondence recorded only %d layer events (trace hook missing or silent)" % tr['distinct'],
                       dict(op='layer-trace', renders=len(jobs)), found_input=False)
+
+    ch = rc.chain_trace_correspondence(ctx, binp, 40 if quick else 400)
+    ctx.cov['chain_trace'] = ch
+    ctx.log("chain-trace: %s" % ch)
+    # regression (ffdf909): the nested-clamp witness must commute with a whole-pixel shift
+    wit = open(vlib.VERIF + '/corpus/witness/C14-nested-layer-clamp.svg').read().strip()
+    st = run_shift(ctx, binp, [(wit, 'native:1:0:0', -20, 1), (wit, 'native:1:0.37:0.13', 33, -7)], "regression nested-layer-clamp")
+    if st['identical'] + st['within1'] != 2:
+        ctx.violation("regression: the nested-layer-clamp witness no longer commutes with a whole-pixel shift: %s" % st,
+                      dict(op='c13-shift', doc=wit, view='native:1:0:0', shift=[-20, 1]))
 
     # ------------------------------------------------------------------ S: e2e-C13
     stats = {}
